@@ -7,7 +7,7 @@ import struct as _struct
 import z3
 
 from .values import *  # noqa
-from .libops import _zt, OpaqueVal, OpaqueFloat, to_str
+from .libops import _zt, OpaqueVal, OpaqueFloat, to_str, is_intlike as libops_is_intlike
 from . import libattr
 from .libclasses import Factory, make_namedtuple
 
@@ -344,6 +344,15 @@ def _mod_uuid(it, m):
 
 
 def opaque_attr(it, obj, name, node):
+    from .libops import Instant
+    if isinstance(obj, Instant) and name == 'replace':
+        def replace(it_, a, k, n):
+            if a or list(k) != ['microsecond'] or not libops_is_intlike(k['microsecond']):
+                raise Unsupported('datetime.replace(%s)' % ','.join(k))
+            us = zi(k["microsecond"])
+            it_.raise_if(z3.Or(us < 0, us > 999999), 'ValueError', 'microsecond-range', n)
+            return Instant(z3.simplify(obj.us - obj.us % 1000000 + us), obj.tz)
+        return Builtin('datetime.replace', replace)
     if obj.kind == 'datetime' and name == 'strftime':
         return Builtin('strftime', lambda it_, a, k, n: SStr([('opaque', 'strftime', (obj, a[0]))]))
     if obj.kind.startswith('plist'):
@@ -367,9 +376,32 @@ def _mod_plistlib(it, m):
 
 def _mod_datetime(it, m):
     dt = ClassVal('datetime', m, 'stub-holder')
-    dt.attrs['fromtimestamp'] = Builtin('datetime.fromtimestamp',
-                                        lambda it_, a, k, n: OpaqueVal('datetime', (a[0], k.get('tz'))))
+    from .libops import Instant, Duration, is_intlike
+
+    def fromtimestamp(it_, a, k, n):
+        ts = a[0]
+        tz = k.get('tz', a[1] if len(a) > 1 else None)
+        if is_intlike(ts) and not isinstance(ts, bool):
+            # exact for an int (assumed within datetime's range: years 1..9999)
+            return Instant(zi(ts) * 1000000, tz)
+        return OpaqueVal('datetime', (ts, tz))
+    dt.attrs['fromtimestamp'] = Builtin('datetime.fromtimestamp', fromtimestamp)
     m.ns['datetime'] = dt
+    UNITS = {'microseconds': 1, 'milliseconds': 1000, 'seconds': 10 ** 6, 'minutes': 60 * 10 ** 6, 'hours': 3600 * 10 ** 6,
+             'days': 86400 * 10 ** 6, 'weeks': 7 * 86400 * 10 ** 6}
+
+    def timedelta(it_, a, k, n):
+        order = ['days', 'seconds', 'microseconds', 'milliseconds', 'minutes', 'hours', 'weeks']
+        kw = dict(k)
+        for i, v in enumerate(a):
+            kw[order[i]] = v
+        total = z3.IntVal(0)
+        for name, v in kw.items():
+            if name not in UNITS or not is_intlike(v):
+                raise Unsupported('timedelta(%s=%s)' % (name, type(v).__name__))
+            total = total + zi(v) * UNITS[name]
+        return Duration(z3.simplify(total))
+    m.ns['timedelta'] = Builtin('datetime.timedelta', timedelta)
     tz = ClassVal('timezone', m, 'stub-holder')
     tz.attrs['utc'] = OpaqueVal('tz', ('utc',))
     m.ns['timezone'] = tz
